@@ -96,17 +96,39 @@ def rule_a(ctx):
 
     ms = [_O("m0", {"num_parameters": 2}), _O("m1", {"num_parameters": 3})]
     P = [_Op("p", f"p{i}") for i in range(5)]
+    plist = lambda k: "[" + ", ".join(f"<opaque p p{i}>" for i in range(k, 5)) + "]"
+    TITLE = "CombinedModel: parameters are consumed left to right, num_parameters per sub-model, in self.models order"
     fo = _F(symbolic=True)
     fo.func_stack.append(f.node)
     try:
         fo.call(f.node, [_O("self", {"models": ms}), P, None])
         got = [repr(t) for t in fo.trace if ".update_model_parameters(" in repr(t)]
-        plist = lambda k: "[" + ", ".join(f"<opaque p p{i}>" for i in range(k, 5)) + "]"
         want = [f"m0.update_model_parameters({plist(0)})", f"m1.update_model_parameters({plist(2)})"]
-        ctx.ob(R, f.qname, "CombinedModel: parameters are consumed left to right, num_parameters per sub-model, in self.models order", got == want,
+        ctx.ob(R, f.qname, TITLE, got == want,
                f"sub-models with 2 and 3 parameters receive {got}", f.node, evidence=True)
     except (_Re, _Ra) as e:
-        ctx.ob(R, f.qname, "CombinedModel: parameters are consumed left to right, num_parameters per sub-model, in self.models order", False, f"routing not found to be foldable: {e}", f.node)
+        ctx.ob(R, f.qname, TITLE, False, f"routing not found to be foldable: {e}", f.node)
+    # a list of (position, dofs) pairs: the k-th addressed sub-model reads from where the block of the (k-1)-th addressed one ends
+    # (block size = its num_parameters), whatever its position in self.models
+    npar = [2, 3]
+    for order in ([1], [0, 1], [1, 0], [0], [1, 1]):
+        dofs = [(k, _Op("dofs", f"d{k}")) for k in order]
+        fo = _F(symbolic=True)
+        fo.func_stack.append(f.node)
+        title = f"CombinedModel: dofs addressing sub-models {order}: the k-th addressed sub-model reads from the end of the block of the one addressed before"
+        try:
+            fo.call(f.node, [_O("self", {"models": ms}), P, dofs])
+            got = [repr(t) for t in fo.trace if ".update_model_parameters(" in repr(t)]
+            want, off = [], 0
+            for k in order:
+                want.append(f"m{k}.update_model_parameters({plist(off)}, <opaque dofs d{k}>)")
+                off += npar[k]
+            if len(got) == len(want) and all(g.split("(")[0] == w.split("(")[0] for g, w in zip(got, want)):
+                ctx.ob(R, f.qname, title, got == want, f"receive {got}; expected {want}", f.node, evidence=True)
+            else:
+                ctx.ob(R, f.qname, title, False, f"routing not found to be foldable: calls {got}", f.node)
+        except (_Re, _Ra) as e:
+            ctx.ob(R, f.qname, title, False, f"routing not found to be foldable: {e}", f.node)
     init = m.func(COMB, "CombinedModel.__init__")
     me = _O("self", {})
     fo = _F(symbolic=True)
